@@ -253,6 +253,8 @@ LIFT_EXTRACTS_MULTI = {
     # generated file -> (repo file, [function names], wrapper with one %s for the bodies)
     "lift/index/balance_extract.rs": ("src/index.rs", ["encode_rune_balance"],
                                       "// GENERATED at run time: Index::encode_rune_balance copied from /repo/src/index.rs\nuse super::*;\n\nimpl Index {\n%s\n}\n"),
+    "lift/index/rune_mint_extract.rs": ("src/index/updater/rune_updater.rs", ["mint"],
+                                        "// GENERATED at run time: RuneUpdater::mint copied from /repo/src/index/updater/rune_updater.rs\nuse super::*;\n\nimpl MintUpdater<'_> {\n%s\n}\n\n#[cfg(test)]\nmod mint_replay;\n"),
     "lift/index/rune_updater_extract.rs": ("src/index/updater/rune_updater.rs", ["index_runes"],
                                            "// GENERATED at run time: RuneUpdater::index_runes copied from /repo/src/index/updater/rune_updater.rs\n// `Runestone` is bound to the shim below: decipher is a stated stub here (C25 decides the real one)\nuse super::*;\nuse super::rune_shim::Runestone;\n\nimpl RuneUpdater<'_> {\n%s\n}\n\n#[cfg(test)]\nmod runes_replay;\n"),
 }
